@@ -279,9 +279,9 @@
             else { Some((b[0] as usize, 1)) }
         }
         open spec fn spec_pad(len: usize) -> Seq<u8> { Seq::<u8>::empty() }
-        //@ fn src:zvt_builder/src/length.rs | impl Length for Adpu | serialize | props=C16,C03,C04 $M
+        //@ fn src:zvt_builder/src/length.rs | impl Length for Adpu | serialize | also=C04 props=C16,C03,C04 $M
         //@ end
-        //@ fn src:zvt_builder/src/length.rs | impl Length for Adpu | deserialize | props=C02,C16 $M
+        //@ fn src:zvt_builder/src/length.rs | impl Length for Adpu | deserialize | also=C04 props=C02,C16 $M
         //@ end
         //@ tag len.law_inverse.Adpu C16 C01 C04
         proof fn law_inverse(len: usize, p: Seq<u8>, s: Seq<u8>) {
